@@ -17,14 +17,14 @@
    every serialization / enc / zip): there the glue is done in Coq.
    They cover EVERY row of the algorithm table (c04_single_rt_covers_all_algorithms), i.e. the compact and the
    flattened round trip for every alg x enc x zip.
-   c04_compact/flat/general_rt_partial are the message-layer theorem instantiated per serialization with the
-   premise "the recipients yield the CEK of the encryption"; for SEVERAL recipients (general JSON) the gluing of
-   the per-recipient key-layer theorems through pre_loop / post_loop / recip_loop is not carried out in Coq:
-   that is what *_partial means. *)
+   c04_compact_rt, c04_flat_rt, c04_general_rt (n >= 1 recipients of mixed non-direct algorithms),
+   c04_general_rt_n (n >= 2) and c04_general_rt_any_recipient (verify_all_recipients = False, some entries
+   failing) hold under the inverse-pair contracts only: the glue through pre_loop / post_loop / recip_loop is
+   proofs/C04Multi.v. *)
 From Coq Require Import Lia.
 From Model Require Import JweBase JweCrypto JweMsg JweCases C02Examples.
 From Gen Require Import Tables.
-From Proofs Require Import C02Proofs C04Proofs.
+From Proofs Require Import C02Proofs C04Proofs C04Multi C04Wire C04JsonWire.
 Open Scope N_scope.
 
 (* ---- message layer ---- *)
@@ -37,39 +37,204 @@ Theorem c04_message_rt : forall O, contracts O -> forall g o d x e encv,
   perform_decrypt O g (obj_of o x) = Ok (e_plain o).
 Proof. exact message_rt. Qed.
 
-Theorem c04_compact_rt_partial : forall O, contracts O -> forall g o d x e encv,
-  e_ser o = Compact ->
+(* ================= the round trip per serialization, under the inverse-pair contracts only =============
+   Premises besides [contracts O]: the decrypt-side header check accepts (C15's subject), GCM tags are
+   octets, per recipient [recip_ok] (well-formed header dict, private recipient key, the epk dict is the
+   public JWK of the ephemeral key: o_import ... = Ok (pubk eph), sender key of the same type, drawn
+   octets are octets), and the drawn IV / CEK have the sizes of the enc. *)
+Theorem c04_compact_rt : forall O, contracts O -> forall g,
+  (forall hs, o_check_header O (PDict hs) true = Ok tt) ->
+  (forall k iv a m c t, o_gcm_enc O k iv a m = Ok (c, t) -> bytes_ok t = true) ->
+  forall o d x r,
+  e_ser o = Compact -> e_recips o = [r] -> r_header r = PNone ->
   perform_encrypt O g o d = Ok x ->
-  hitem (x_prot x) "enc" = Ok encv -> hitem (e_prot o) "enc" = Ok encv -> get_enc g encv = Ok e ->
-  lenN (d_civ d) * 8 = ee_iv_size e ->
-  recip_loop O g e (obj_of o x) (x_recips x) [] = Ok [x_cek x] ->
-  lenN (x_cek x) * 8 = ee_cek_size e ->
+  wf (e_prot o) -> hdr_wf (e_unprot o) -> recip_ok O r (draw_of (d_rec d)) ->
+  (forall encv e, hitem (e_prot o) "enc" = Ok encv -> get_enc g encv = Ok e ->
+     lenN (d_civ d) * 8 = ee_iv_size e /\ lenN (d_cek d) * 8 = ee_cek_size e) ->
   perform_decrypt O g (obj_of o x) = Ok (e_plain o) /\
-  j_prot (obj_of o x) = x_prot x /\ dec_aad O (obj_of o x) = Ok (x_b64prot x).
-Proof. exact compact_rt_partial. Qed.
+  dec_aad O (obj_of o x) = Ok (x_b64prot x) /\ j_prot (obj_of o x) = x_prot x.
+Proof. exact compact_rt. Qed.
 
-Theorem c04_flat_rt_partial : forall O, contracts O -> forall g o d x e encv,
-  e_ser o = Flat ->
-  perform_encrypt O g o d = Ok x ->
-  hitem (x_prot x) "enc" = Ok encv -> hitem (e_prot o) "enc" = Ok encv -> get_enc g encv = Ok e ->
-  lenN (d_civ d) * 8 = ee_iv_size e ->
-  recip_loop O g e (obj_of o x) (x_recips x) [] = Ok [x_cek x] ->
-  lenN (x_cek x) * 8 = ee_cek_size e ->
-  perform_decrypt O g (obj_of o x) = Ok (e_plain o) /\
-  j_unprot (obj_of o x) = e_unprot o /\ j_aad (obj_of o x) = e_aad o.
-Proof. exact flat_rt_partial. Qed.
+(* the same at the WIRE level: jwe.decrypt_compact applied to the string jwe.encrypt_compact returned.
+   Additional contract: json.loads (json.dumps v) = v; additional premises: what was produced are octet strings and
+   the final protected header still has "alg" and "enc" (checked by extract_compact) *)
+Theorem c04_compact_wire_rt : forall O, contracts O -> forall g,
+  (forall hs, o_check_header O (PDict hs) true = Ok tt) ->
+  (forall k iv a m c t, o_gcm_enc O k iv a m = Ok (c, t) -> bytes_ok t = true) ->
+  (forall v t a, o_dumps O v = Ok t -> ascii_enc t = Ok a -> o_loads O a = Ok v) ->
+  forall o d tok r,
+  e_ser o = Compact -> e_recips o = [r] -> r_header r = PNone ->
+  wf (e_prot o) -> hdr_wf (e_unprot o) -> recip_ok O r (draw_of (d_rec d)) ->
+  (forall encv e, hitem (e_prot o) "enc" = Ok encv -> get_enc g encv = Ok e ->
+     lenN (d_civ d) * 8 = ee_iv_size e /\ lenN (d_cek d) * 8 = ee_cek_size e) ->
+  (forall x, perform_encrypt O g o d = Ok x ->
+     bytes_ok (x_iv x) = true /\ bytes_ok (x_ct x) = true /\ bytes_ok (x_tag x) = true /\
+     (forall r' ek, In r' (x_recips x) -> r_ek r' = Some ek -> bytes_ok ek = true) /\
+     dmem (x_prot x) (s_ "alg") = true /\ dmem (x_prot x) (s_ "enc") = true) ->
+  encrypt_compact O g o d = Ok tok ->
+  exists ob, decrypt_compact O g tok (r_key r) (r_sender r) = Ok (e_plain o, ob) /\
+             exists x, perform_encrypt O g o d = Ok x /\ j_prot ob = x_prot x /\ j_b64prot ob = Some (x_b64prot x).
+Proof. exact compact_wire_rt. Qed.
 
-Theorem c04_general_rt_partial : forall O, contracts O -> forall g o d x e encv,
-  e_ser o = General ->
+(* non-vacuity: on the recorded compact encryptions (dir, ECDH-ES) the model's decrypt_compact of the model's
+   encrypt_compact output gives back the plaintext "hi" *)
+Example c04_compact_wire_nonvacuous :
+  match ex_dir_cbc_enc, ex_dir_cbc with
+  | CEncCompact t1 g1 o1 d1 _, CDecCompact t2 _ _ k s _ =>
+      match encrypt_compact (table_oracles t1) g1 o1 d1 with
+      | Ok tok => match decrypt_compact (table_oracles t2) g1 tok k s with
+                  | Ok (m, _) => beqb m (e_plain o1)
+                  | Err _ => false
+                  end
+      | Err _ => false
+      end
+  | _, _ => false
+  end = true.
+Proof. vm_compute. reflexivity. Qed.
+
+Theorem c04_flat_rt : forall O, contracts O -> forall g,
+  (forall hs, o_check_header O (PDict hs) true = Ok tt) ->
+  (forall k iv a m c t, o_gcm_enc O k iv a m = Ok (c, t) -> bytes_ok t = true) ->
+  forall o d x r,
+  e_ser o = Flat -> e_recips o = [r] ->
   perform_encrypt O g o d = Ok x ->
-  hitem (x_prot x) "enc" = Ok encv -> hitem (e_prot o) "enc" = Ok encv -> get_enc g encv = Ok e ->
-  lenN (d_civ d) * 8 = ee_iv_size e ->
-  recip_loop O g e (obj_of o x) (x_recips x) [] = Ok [x_cek x] ->
-  lenN (x_cek x) * 8 = ee_cek_size e ->
+  wf (e_prot o) -> hdr_wf (e_unprot o) -> recip_ok O r (draw_of (d_rec d)) ->
+  (forall encv e, hitem (e_prot o) "enc" = Ok encv -> get_enc g encv = Ok e ->
+     lenN (d_civ d) * 8 = ee_iv_size e /\ lenN (d_cek d) * 8 = ee_cek_size e) ->
   perform_decrypt O g (obj_of o x) = Ok (e_plain o) /\
-  j_unprot (obj_of o x) = e_unprot o /\ j_aad (obj_of o x) = e_aad o /\
-  length (j_recips (obj_of o x)) = length (x_recips x).
-Proof. exact general_rt_partial. Qed.
+  j_unprot (obj_of o x) = e_unprot o /\ j_aad (obj_of o x) = e_aad o /\ j_prot (obj_of o x) = e_prot o.
+Proof. exact flat_rt. Qed.
+
+(* general JSON (and flattened), n >= 1 recipients of MIXED non-direct algorithms: every recipient yields the
+   CEK of the encryption (so verify_all_recipients = True and = False both accept) and the plaintext comes back *)
+Theorem c04_general_rt : forall O, contracts O -> forall g,
+  (forall hs, o_check_header O (PDict hs) true = Ok tt) ->
+  (forall k iv a m c t, o_gcm_enc O k iv a m = Ok (c, t) -> bytes_ok t = true) ->
+  forall o d x,
+  e_ser o <> Compact -> e_recips o <> [] ->
+  nodirect g (e_ser o) (e_prot o) (e_unprot o) (e_recips o) ->
+  wf (e_prot o) -> hdr_wf (e_unprot o) -> oks O (e_recips o) (d_rec d) ->
+  (forall encv e, hitem (e_prot o) "enc" = Ok encv -> get_enc g encv = Ok e ->
+     lenN (d_civ d) * 8 = ee_iv_size e /\ lenN (d_cek d) * 8 = ee_cek_size e /\ ee_cek_size e <> 0) ->
+  perform_encrypt O g o d = Ok x ->
+  perform_decrypt O g (obj_of o x) = Ok (e_plain o) /\
+  (forall r', In r' (x_recips x) -> exists e, yields O g e (obj_of o x) r' (x_cek x)).
+Proof. exact general_rt. Qed.
+
+(* the JSON serializations at the API level: jwe.decrypt_json applied to the dict jwe.encrypt_json returned
+   (represent_flattened_json / represent_general_json followed by extract_*_json and __extract_segments), for
+   n >= 1 recipients of mixed non-direct algorithms, one key per recipient, a common sender key.
+   Additional contract: json.loads (json.dumps v) = v; additional premises: what was produced, and the aad, are
+   octet strings.  Falsy headers / an empty aad are dropped by the representation and come back as None: shown
+   not to matter (hequiv / aad_equiv inside the proof). *)
+Theorem c04_json_wire_rt : forall O, contracts O -> forall g,
+  (forall hs, o_check_header O (PDict hs) true = Ok tt) ->
+  (forall k iv a m c t, o_gcm_enc O k iv a m = Ok (c, t) -> bytes_ok t = true) ->
+  (forall v t a, o_dumps O v = Ok t -> ascii_enc t = Ok a -> o_loads O a = Ok v) ->
+  forall o d data dflt sender,
+  e_ser o <> Compact -> e_recips o <> [] -> (e_ser o = Flat -> exists r, e_recips o = [r]) ->
+  nodirect g (e_ser o) (e_prot o) (e_unprot o) (e_recips o) ->
+  wf (e_prot o) -> hdr_wf (e_unprot o) -> oks O (e_recips o) (d_rec d) ->
+  (forall r, In r (e_recips o) -> r_sender r = sender) ->
+  (forall encv e, hitem (e_prot o) "enc" = Ok encv -> get_enc g encv = Ok e ->
+     lenN (d_civ d) * 8 = ee_iv_size e /\ lenN (d_cek d) * 8 = ee_cek_size e /\ ee_cek_size e <> 0) ->
+  (forall l, e_aad o = Some l -> bytes_ok l = true) ->
+  (forall x, perform_encrypt O g o d = Ok x ->
+     bytes_ok (x_iv x) = true /\ bytes_ok (x_ct x) = true /\ bytes_ok (x_tag x) = true /\
+     (forall r' ek, In r' (x_recips x) -> r_ek r' = Some ek -> bytes_ok ek = true)) ->
+  encrypt_json O g o d = Ok data ->
+  exists ob, decrypt_json O g data (map r_key (e_recips o)) dflt sender = Ok (e_plain o, ob) /\
+             length (j_recips ob) = length (e_recips o).
+Proof. exact json_wire_rt. Qed.
+
+(* non-vacuity: the model's decrypt_json of the model's encrypt_json output, on the recorded 2-recipient run *)
+Example c04_json_wire_nonvacuous :
+  match ex_general_2_enc, ex_general_2 with
+  | CEncJson t1 g1 o1 d1 _, CDecJson t2 _ _ ks s _ =>
+      match encrypt_json (table_oracles t1) g1 o1 d1 with
+      | Ok data => match decrypt_json (table_oracles t2) g1 data ks nokey s with
+                   | Ok (m, ob) => beqb m (e_plain o1) && (length (j_recips ob) =? 2)%nat
+                   | Err _ => false
+                   end
+      | Err _ => false
+      end
+  | _, _ => false
+  end = true.
+Proof. vm_compute. reflexivity. Qed.
+
+(* with >= 2 recipients the absence of direct-mode algorithms follows from the success of the encryption *)
+Theorem c04_general_rt_n : forall O, contracts O -> forall g,
+  (forall hs, o_check_header O (PDict hs) true = Ok tt) ->
+  (forall k iv a m c t, o_gcm_enc O k iv a m = Ok (c, t) -> bytes_ok t = true) ->
+  forall o d x,
+  e_ser o <> Compact -> (1 < length (e_recips o))%nat ->
+  wf (e_prot o) -> hdr_wf (e_unprot o) -> oks O (e_recips o) (d_rec d) ->
+  (forall encv e, hitem (e_prot o) "enc" = Ok encv -> get_enc g encv = Ok e ->
+     lenN (d_civ d) * 8 = ee_iv_size e /\ lenN (d_cek d) * 8 = ee_cek_size e /\ ee_cek_size e <> 0) ->
+  perform_encrypt O g o d = Ok x ->
+  perform_decrypt O g (obj_of o x) = Ok (e_plain o) /\
+  length (x_recips x) = length (e_recips o) /\
+  (forall r', In r' (x_recips x) -> exists e, yields O g e (obj_of o x) r' (x_cek x)).
+Proof. exact general_rt_n. Qed.
+
+(* verify_all_recipients = False: the reader holds the right key for SOME recipients only; the other entries
+   (any list rs of them, in any order) fail with an error the loop swallows; one good entry suffices *)
+Theorem c04_general_rt_any_recipient : forall O, contracts O -> forall g,
+  (forall hs, o_check_header O (PDict hs) true = Ok tt) ->
+  (forall k iv a m c t, o_gcm_enc O k iv a m = Ok (c, t) -> bytes_ok t = true) ->
+  forall o d x rs,
+  e_ser o <> Compact -> e_recips o <> [] ->
+  nodirect g (e_ser o) (e_prot o) (e_unprot o) (e_recips o) ->
+  wf (e_prot o) -> hdr_wf (e_unprot o) -> oks O (e_recips o) (d_rec d) ->
+  (forall encv e, hitem (e_prot o) "enc" = Ok encv -> get_enc g encv = Ok e ->
+     lenN (d_civ d) * 8 = ee_iv_size e /\ lenN (d_cek d) * 8 = ee_cek_size e /\ ee_cek_size e <> 0) ->
+  perform_encrypt O g o d = Ok x ->
+  g_verify_all g = false ->
+  (forall e, Forall (fun r => In r (x_recips x) \/ fails_quietly O g e (with_recips (obj_of o x) rs) r) rs) ->
+  (exists r, In r rs /\ In r (x_recips x)) ->
+  perform_decrypt O g (with_recips (obj_of o x) rs) = Ok (e_plain o).
+Proof. exact general_rt_any. Qed.
+
+(* the recipient loop itself *)
+Theorem c04_recip_loop_all : forall O g e o cek rs acc,
+  Forall (fun r => yields O g e o r cek) rs -> acc = [] \/ acc = [cek] ->
+  recip_loop O g e o rs acc = Ok (match rs with [] => acc | _ => [cek] end).
+Proof. exact recip_loop_all. Qed.
+
+Theorem c04_recip_loop_any : forall O g e o cek rs acc,
+  g_verify_all g = false ->
+  Forall (fun r => yields O g e o r cek \/ fails_quietly O g e o r) rs -> acc = [] \/ acc = [cek] ->
+  exists ceks, recip_loop O g e o rs acc = Ok ceks /\ (ceks = acc \/ ceks = [cek]) /\
+               (Exists (fun r => yields O g e o r cek) rs -> ceks = [cek]).
+Proof. exact recip_loop_any. Qed.
+
+(* one recipient, ANY algorithm of the table, ANY serialization *)
+Theorem c04_single_rt : forall O, contracts O -> forall g,
+  (forall hs, o_check_header O (PDict hs) true = Ok tt) ->
+  (forall k iv a m c t, o_gcm_enc O k iv a m = Ok (c, t) -> bytes_ok t = true) ->
+  forall o d x r,
+  e_recips o = [r] -> perform_encrypt O g o d = Ok x ->
+  wf (e_prot o) -> hdr_wf (e_unprot o) -> (e_ser o = Compact -> r_header r = PNone) ->
+  recip_ok O r (draw_of (d_rec d)) ->
+  (forall encv e, hitem (e_prot o) "enc" = Ok encv -> get_enc g encv = Ok e ->
+     lenN (d_civ d) * 8 = ee_iv_size e /\ lenN (d_cek d) * 8 = ee_cek_size e) ->
+  perform_decrypt O g (obj_of o x) = Ok (e_plain o).
+Proof. exact single_rt. Qed.
+
+(* non-vacuity of the n-recipient theorem: the recorded 2-recipient general JSON encryption of joserfc
+   (A128KW + A256KW) succeeds in the model, has 2 output recipients, and names no direct algorithm *)
+Example c04_general_rt_nonvacuous :
+  match ex_general_2_enc with
+  | CEncJson t g o d _ =>
+      match perform_encrypt (table_oracles t) g o d with
+      | Ok x => (length (e_recips o) =? 2)%nat && (length (x_recips x) =? 2)%nat
+                && match e_ser o with General => true | _ => false end
+                && (8 * lenN (x_cek x) =? 256)
+      | Err _ => false
+      end
+  | _ => false
+  end = true.
+Proof. vm_compute. reflexivity. Qed.
 
 (* ---- END-TO-END for one recipient, every serialization, enc and zip, no key-layer premise ---- *)
 (* key wrapping (A128KW/A192KW/A256KW) and key encryption (RSA1_5, RSA-OAEP, RSA-OAEP-256) *)
@@ -352,6 +517,18 @@ Theorem c04_1pu_kw_cbc_only : forall O a e hs r tag,
   enc_auk O a e hs r tag = Err (EJose InvalidEncryptionAlgorithmError).
 Proof. exact onepu_kw_cbc_only. Qed.
 
+(* RSA keys smaller than the row's key size (2048 bits for RSA1_5, RSA-OAEP, RSA-OAEP-256) are refused *)
+Theorem c04_rsa_small_key_refused : forall O a s prot unprot r d cek bits,
+  fam_is (ea_family a) "RSA" = true -> check_key_type a (r_key r) = Ok tt ->
+  o_rsa_bits O (k_id (r_key r)) = Ok bits -> bits < key_size_of a ->
+  encrypt_cek O a s prot unprot r d cek = Err (EJose InvalidKeyLengthError).
+Proof. exact rsa_small_key_refused. Qed.
+
+Example c04_rsa_min_sizes :
+  map (fun a => (ea_name a, key_size_of a)) (filter (fun a => fam_is (ea_family a) "RSA") jwe_alg_table_drafts)
+  = [("RSA1_5", 2048); ("RSA-OAEP", 2048); ("RSA-OAEP-256", 2048)]%string.
+Proof. vm_compute. reflexivity. Qed.
+
 (* which (alg, enc) pairs that is, by computation on the tables *)
 Example c04_1pu_kw_refused_pairs :
   let algs := filter (fun a => fam_is (ea_family a) "ECDH1PU" && negb (str_eqb (asc (ea_wrap a)) [])) jwe_alg_table_drafts in
@@ -374,9 +551,16 @@ Example c04_nonvacuous :
 Proof. vm_compute. reflexivity. Qed.
 
 Print Assumptions c04_message_rt.
-Print Assumptions c04_compact_rt_partial.
-Print Assumptions c04_flat_rt_partial.
-Print Assumptions c04_general_rt_partial.
+Print Assumptions c04_compact_rt.
+Print Assumptions c04_compact_wire_rt.
+Print Assumptions c04_flat_rt.
+Print Assumptions c04_general_rt.
+Print Assumptions c04_json_wire_rt.
+Print Assumptions c04_general_rt_n.
+Print Assumptions c04_general_rt_any_recipient.
+Print Assumptions c04_recip_loop_all.
+Print Assumptions c04_recip_loop_any.
+Print Assumptions c04_single_rt.
 Print Assumptions c04_single_rt_kw_rsa.
 Print Assumptions c04_single_rt_dir.
 Print Assumptions c04_single_rt_gcmkw.
@@ -400,3 +584,4 @@ Print Assumptions c04_compact_segments_rt.
 Print Assumptions c04_direct_single.
 Print Assumptions c04_direct_conflict_class.
 Print Assumptions c04_1pu_kw_cbc_only.
+Print Assumptions c04_rsa_small_key_refused.
